@@ -45,14 +45,24 @@ def render(hist, kind):
             d = '%s%sint x%s%s;' % (sc, ' ' if sc else '', a, ' = %d' % (i + 1) if init else '')
         else:
             d = '%s%sint f(void)%s%s' % (sc, ' ' if sc else '', a, ' { return %d; }' % (i + 1) if init else ';')
+        # a block-scope declaration with linkage is also USED inside its block: the reference must go to the same symbol
+        haslink = (k == 'fun') or ('extern' in sc)
         if scope == 'file':
             out.append(d)
         elif scope == 'block':
             g += 1
-            out.append('void g%d(void) { %s }' % (g, d))
+            if haslink and k == 'obj':
+                out.append('void *g%d(void) { %s return &x; }' % (g, d))
+            elif haslink and 'static' not in sc:
+                out.append('int g%d(void) { %s return f(); }' % (g, d))
+            else:
+                out.append('void g%d(void) { %s }' % (g, d))
         else:
             g += 1
-            out.append('void g%d(void) { int x; { %s } }' % (g, d))
+            if haslink and k == 'obj':
+                out.append('void *g%d(void) { int x; { %s return &x; } }' % (g, d))
+            else:
+                out.append('void g%d(void) { int x; { %s } }' % (g, d))
     if kind == 'obj':
         out.append('void *use(void) { return &x; }')
     else:
